@@ -23,6 +23,7 @@ QUICK = [
     # generated: two unit cubes whose padded extent is a whole number of voxels in every direction (upper grid boundary hit exactly)
     ("dyadic-cubes", "gen:dyadic-cubes", "0.5", 3, 2, {"perform_initial_triangulation": "0", "contact_cutoff_adhesion": "0.25",
                                                      "contact_cutoff_repulsion": "0.25"}, {}),
+    ("type-id-65535", "gen:type-id-65535", "0.5", 1, 1, {"perform_initial_triangulation": "0"}, {}),
 ]
 
 
@@ -36,6 +37,16 @@ def generated_mesh(spec, wd):
             return P, T, 0
         path = os.path.join(wd, "dyadic_cubes.vtk")
         SC.write_vtk(path, [cube((0.0, 0.0, 10.0)), cube((0.0, 0.0, 12.25))])
+        return path
+    if spec == "gen:type-id-65535":
+        # a syntactically valid file whose cell type id does not fit the short it is stored in: start-up must refuse it, not index with it
+        base = generated_mesh("gen:dyadic-cubes", wd)
+        txt = open(base).read()
+        i = txt.rindex("cell_type_id")
+        j = txt.index("\n", i) + 1
+        k = txt.index("\n", j)
+        path = os.path.join(wd, "type_id.vtk")
+        open(path, "w").write(txt[:j] + "65535 0 " + txt[k:])
         return path
     raise ValueError(spec)
 THOROUGH_EXTRA = [
@@ -79,6 +90,39 @@ def run_scenarios(exe, scen, repeat=1, valgrind=False):
     return results
 
 
+# the production entry point itself (main.cpp: `solver solver_; … solver_ = solver(…); solver_.run();` — a default-constructed solver that
+# is move-assigned, which no harness that constructs the solver in place exercises), compiled as it is and linked with the ASan objects
+MAIN_SCEN = [
+    ("main-cube", "cube.vtk", "1e-6", {"simulation_duration": "2.5e-6", "sampling_period": "1e-6"}, 2),
+    ("main-4cubes-initial-triangulation", "4_cubes.vtk", "1e-6", {"simulation_duration": "1.2e-6", "sampling_period": "5e-7", "perform_initial_triangulation": "1"}, 4),
+]
+
+
+def run_main_scenarios(scen):
+    results = []
+    try:
+        exe, _ = vlib.build_repo.build_harness(os.path.join(vlib.REPO, "main.cpp"), "main_asan")
+    except RuntimeError as e:
+        return [{"name": "main", "rc": "build", "problem": ("main.cpp does not build against the repo objects: %s" % str(e)[-300:], "main-build"), "ended": [], "wall": 0.0,
+                 "scenario": {}, "args": [], "err": str(e)[-800:]}]
+    for (name, mesh, lmin, ov, threads) in scen:
+        with SC.Workdir() as wd:
+            params = SC.make_params(wd, mesh, lmin, ov, SC.DETERMINISTIC)
+            e = dict(vlib.ENV); e["OMP_NUM_THREADS"] = str(threads)
+            t = time.time()
+            try:
+                p = subprocess.run([exe, params], capture_output=True, timeout=900, env=e, cwd=wd)
+                rc, err = p.returncode, p.stderr.decode(errors="replace")
+            except subprocess.TimeoutExpired:
+                rc, err = "timeout", ""
+            what, key = SC.classify(rc, err)
+            if not what and rc != 0:
+                what, key = "main ended with exit code %s: %s" % (rc, err[-300:]), "main-rc"
+            results.append({"name": name, "rc": rc, "problem": (what, key) if what else None, "ended": ["END", "DESTROYED"] if rc == 0 else [], "wall": time.time() - t,
+                            "scenario": {"mesh": mesh, "l_min": lmin, "overrides": ov, "threads": threads, "entry": "main.cpp"}, "args": [exe, params], "err": err[-1200:]})
+    return results
+
+
 def run(ctx):
     tier, seed = ctx["tier"], ctx["seed"]
     t0 = time.time()
@@ -97,7 +141,7 @@ def run(ctx):
     if tier == "thorough" or not proof["ok"]:
         scen += THOROUGH_EXTRA
         repeat = 3 if tier == "thorough" else 2
-    results = run_scenarios(exe, scen, repeat)
+    results = run_scenarios(exe, scen, repeat) + run_main_scenarios(MAIN_SCEN)
     vg = []
     if tier == "thorough":
         exe_ns, _ = SC.build("none")
